@@ -2,6 +2,8 @@ package props
 
 import (
 	"fmt"
+	"github.com/semihalev/twig"
+	"runtime"
 	"strings"
 
 	"verifharness/internal/core"
@@ -27,7 +29,7 @@ func init() {
 func (p *c14) Shards(string) int         { return 16 }
 func (p *c14) CaseTimeoutSec(string) int { return 120 }
 func (p *c14) RequiredCounters(string) []string {
-	return []string{"straddles-4096", "tag-at-4096", "token-count-crossings", "sources>=64K"}
+	return []string{"straddles-4096", "tag-at-4096", "token-count-crossings", "sources>=64K", "capacity-exact-hits"}
 }
 
 const c14FillerAlphabet = "XQZ0123456789KV"
@@ -123,8 +125,144 @@ func c14LexicalPieces(e []string) []mt.Piece {
 	return ps
 }
 
+// c14Tokens counts the tokens the engine's own tokenizer produces for a source (public API; used only to steer pad sizes).
+func c14Tokens(src string) int {
+	n := -1
+	core.Guard(func() {
+		tk := twig.GetTokenizer(src, 0)
+		defer twig.ReleaseTokenizer(tk)
+		var toks []twig.Token
+		var err error
+		if len(src) > 4096 {
+			toks, err = tk.TokenizeOptimized()
+		} else {
+			toks, err = tk.TokenizeHtmlPreserving()
+		}
+		if err == nil {
+			n = len(toks)
+		}
+	})
+	return n
+}
+
+// capacityExact pads a (usually dashed) template with comments and text so that its token count lands exactly on, or next to,
+// a capacity boundary of the token buffer (256 and its doublings, len(source)/10), and renders it with freshly allocated pools.
+func (p *c14) capacityExact(rec *core.Recorder, r *core.Rand) {
+	corpus := c13Corpus()
+	e := corpus[r.Intn(len(corpus))]
+	set := e.set()
+	pr := &mt.Printer{Tight: r.P(1, 4)}
+	srcs := pr.SourceSet(set)
+	ps := padPieces(r, pr.Pieces(set.T["main"].Body))
+	tags := dashable(ps)
+	mask := r.U64() & (1<<uint(2*len(tags)) - 1)
+	if r.P(1, 4) {
+		mask = 0
+	}
+	ps, _, _ = applyDashes(ps, tags, mask)
+	var points []int
+	for i := 0; i <= len(ps); i++ {
+		if (i > 0 && ps[i-1].Kind == "verbatim") || (i < len(ps) && ps[i].Kind == "endverbatim") {
+			continue
+		}
+		points = append(points, i)
+	}
+	at := points[r.Intn(len(points))]
+	before, after := mt.Join(ps[:at]), mt.Join(ps[at:])
+	marker := "¤000¤"
+	build := func(nA, nB, fill int) (string, string) {
+		f := ""
+		if fill > 0 {
+			f = c14Filler(r.Fork(), fill)
+		}
+		return before + marker + f + strings.Repeat("{##}", nA) + strings.Repeat("{# c #}", nB) + after, f
+	}
+	shortSrc := before + marker + after
+	base, _ := build(0, 0, 0)
+	t0 := c14Tokens(base)
+	one, _ := build(1, 0, 0)
+	slope := c14Tokens(one) - t0
+	if t0 < 0 || slope <= 0 {
+		rec.Count("capacity-exact-unsteerable", 1)
+		return
+	}
+	delta := r.Intn(3) - 1
+	var longSrc, fill string
+	want := 0
+	if r.Bool() {
+		// token count = 256 * 2^k + delta (counting, or not counting, the end-of-input token)
+		want = []int{256, 256, 256, 512, 1024}[r.Intn(5)] + delta
+		nA := (want - t0) / slope
+		if nA < 0 {
+			nA = 0
+		}
+		longSrc, fill = build(nA, 0, 0)
+		for nB := 0; nB < 4 && c14Tokens(longSrc) != want; nB++ {
+			longSrc, fill = build(nA-nB, nB+1, 0)
+			if nA-nB < 0 {
+				break
+			}
+		}
+	} else {
+		// token count = len(source)/10 + delta for a source above 2560 bytes
+		nA := r.Range(40, 400)
+		src0, _ := build(nA, 0, 0)
+		tk := c14Tokens(src0)
+		need := 10*(tk-delta) + r.Intn(10) - len(src0)
+		if need < 2 {
+			rec.Count("capacity-exact-unsteerable", 1)
+			return
+		}
+		longSrc, fill = build(nA, 0, need)
+		want = len(longSrc)/10 + delta
+	}
+	got := c14Tokens(longSrc)
+	rec.Eval("capacity-exact", longSrc, true)
+	if got == want {
+		rec.Count("capacity-exact-hits", 1)
+	} else {
+		rec.Count("capacity-exact-near", 1)
+	}
+	mk := func(s string) map[string]string {
+		m := map[string]string{}
+		for kk, v := range srcs {
+			m[kk] = v
+		}
+		m["main"] = s
+		return m
+	}
+	ctx := ctxToGo(c13Ctx())
+	rs := renderFresh(mk(shortSrc), "main", ctx, nil)
+	runtime.GC()
+	runtime.GC()
+	rl := renderFresh(mk(longSrc), "main", ctx, nil)
+	cs := map[string]any{"short": core.Trunc(shortSrc, 1200), "long_len": len(longSrc), "tokens": got, "token_target": want, "long_head": core.Trunc(longSrc, 400)}
+	if rl.Panicked {
+		rec.Violate("panic", "panic@"+rl.Site, "engine panicked on the long version: "+rl.PanicVal, cs, rl.Stack)
+		return
+	}
+	if rs.Panicked || rs.Err != nil {
+		rec.Count("skipped-short-fails", 1)
+		return
+	}
+	wantOut := strings.Replace(rs.Out, marker, marker+fill, -1)
+	if rl.Err != nil || rl.Out != wantOut {
+		i := 0
+		for i < len(rl.Out) && i < len(wantOut) && rl.Out[i] == wantOut[i] {
+			i++
+		}
+		rec.Violate("pad-invariance", core.SigHash("c14-cap", longSrc),
+			fmt.Sprintf("padding to %d tokens / %d bytes changed how the template is read (err=%v): outputs differ at byte %d: got …%q want …%q; short source %s",
+				got, len(longSrc), rl.Err, i, core.Trunc(rl.Out[min(i, len(rl.Out)):], 60), core.Trunc(wantOut[min(i, len(wantOut)):], 60), core.Q(core.Trunc(shortSrc, 400))), cs, "")
+	}
+}
+
 func (p *c14) Run(rec *core.Recorder, seed uint64, idx int, tier string) {
 	r := core.NewRand("C14", seed, idx)
+	if idx%6 == 5 {
+		p.capacityExact(rec, r)
+		return
+	}
 	// ---- base template
 	var srcs map[string]string
 	var main string
@@ -190,6 +328,10 @@ func (p *c14) Run(rec *core.Recorder, seed uint64, idx int, tier string) {
 		chosen = []int{points[r.Intn(len(points))]}
 	default: // many pads (token-count classes)
 		chosen = points
+		if r.Bool() {
+			// all pads at one point: the total token count then moves in small steps from case to case
+			chosen = []int{points[r.Intn(len(points))]}
+		}
 	}
 	baseLen := 0
 	for _, pc := range ps {
@@ -208,7 +350,7 @@ func (p *c14) Run(rec *core.Recorder, seed uint64, idx int, tier string) {
 	reps := 1
 	if mode == 3 {
 		// many small comment/text pads: repeat pads at every point so that the token count crosses a class
-		reps = []int{3, 12, 40, 130}[r.Intn(4)]
+		reps = []int{3, 12, 40, 130, r.Range(1, 140), r.Range(60, 140), r.Range(100, 130)}[r.Intn(7)]
 	}
 	fillTotal := target - baseLen - len(chosen)*8
 	if fillTotal < len(chosen)*4 {
@@ -321,6 +463,13 @@ func (p *c14) Run(rec *core.Recorder, seed uint64, idx int, tier string) {
 	}
 	rec.Max("max:source-bytes", len(longSrc))
 	rs := renderFresh(mk(shortSrc), main, ctx, nil)
+	if mode == 3 && core.Hash64(longSrc)%2 == 0 {
+		// empty the engine's sync.Pools: a freshly allocated tokenizer has its initial buffer capacities again, which pooled
+		// ones (grown by earlier parses in this process) hide
+		runtime.GC()
+		runtime.GC()
+		rec.Count("fresh-pool-renders", 1)
+	}
 	rl := renderFresh(mk(longSrc), main, ctx, nil)
 	cs := map[string]any{"short": core.Trunc(shortSrc, 1200), "long_len": len(longSrc), "short_len": len(shortSrc), "pads": len(chosen), "mode": mode, "target": target, "long_head": core.Trunc(longSrc, 600)}
 	if rl.Panicked {
